@@ -485,3 +485,121 @@ func isZero(v ssa.Value) bool {
 	c, ok := v.(*ssa.Const)
 	return ok && c.Value != nil && c.Value.ExactString() == "0"
 }
+
+// loopNotLeftEarly: the effect selected by filter sits in a loop of the handler (one write per listed element);
+// the loop is left only through its header (the list is exhausted) or into a panic / failing return. An early
+// success exit (break, return nil) silently drops the remaining elements while the message reports success.
+func loopNotLeftEarly(r *core.Run, rule string, h *core.Handler, what string, filter core.OpFilter) {
+	p := r.Prog
+	n := 0
+	for _, fn := range p.Summary(h.Fn).Funcs {
+		for _, e := range p.Effects(fn) {
+			match := false
+			for _, o := range e.Store {
+				if filter.Store != nil && filter.Store(o) {
+					match = true
+				}
+			}
+			if !match {
+				continue
+			}
+			eb := e.Instr.Block()
+			if !core.InCycle(eb) {
+				continue
+			}
+			n++
+			// header: the block of the cycle entered from outside
+			var header *ssa.BasicBlock
+			for _, b := range fn.Blocks {
+				if !core.SameLoop(b, eb) {
+					continue
+				}
+				for _, pr := range b.Preds {
+					if !core.SameLoop(pr, eb) {
+						header = b
+					}
+				}
+			}
+			bad := ""
+			for _, b := range fn.Blocks {
+				if !core.SameLoop(b, eb) || b == header {
+					continue
+				}
+				for _, sc := range b.Succs {
+					if core.SameLoop(sc, eb) || endsInPanicOrFailure(p, fn, sc) {
+						continue
+					}
+					bad = p.InstrPos(b.Instrs[len(b.Instrs)-1])
+				}
+			}
+			r.Check(bad == "", rule, h.Key()+":"+what+":loop-not-left-early", p.InstrPos(e.Instr), "the per-element loop ends only when the list is exhausted or by failing", "the loop that performs "+what+" for every listed element can be left early on a successful path (at "+bad+"): the remaining elements are silently skipped while the message reports success")
+		}
+	}
+	if n == 0 {
+		r.Undecided(rule, h.Key()+":"+what+":loop-not-left-early", p.Pos(h.Fn.Pos()), "expected "+what+" inside a per-element loop")
+	}
+}
+
+// loadWriteKeyAgreement: a unit that loads a record of a prefix (getter with found flag) and writes a record of the
+// same prefix uses the same key terms for both (skip: handlers that re-key by design). Returns the number of pairs.
+func loadWriteKeyAgreement(r *core.Run, rule string, hs []*core.Handler, rekey map[string]string) int {
+	p := r.Prog
+	nLW := 0
+	for _, h := range hs {
+		if _, ok := rekey[h.Key()]; ok {
+			continue
+		}
+		for _, fn := range p.Summary(h.Fn).Funcs {
+			type site struct {
+				call   ssa.CallInstruction
+				callee *ssa.Function
+				op     *core.StoreOp
+			}
+			var getters, setters []site
+			allInstrs(fn, func(in ssa.Instruction) {
+				call, ok := in.(ssa.CallInstruction)
+				if !ok {
+					return
+				}
+				for _, cal := range p.Callees(call) {
+					if gi := p.StoreGetter(cal); gi != nil && gi.Found {
+						for _, o := range p.StoreOps(cal) {
+							if o.Kind == "Get" {
+								getters = append(getters, site{call, cal, o})
+							}
+						}
+					}
+					for _, o := range p.StoreOps(cal) {
+						if o.Kind == "Set" {
+							setters = append(setters, site{call, cal, o})
+						}
+					}
+				}
+			})
+			for _, st := range setters {
+				name := st.op.Module + "/" + st.op.Prefix
+				var gts [][]string
+				for _, g := range getters {
+					if g.op.Module+"/"+g.op.Prefix == name {
+						gts = append(gts, keyTermsAtCall(p, g.call, g.callee, g.op))
+					}
+				}
+				if len(gts) == 0 {
+					continue
+				}
+				nLW++
+				wt := keyTermsAtCall(p, st.call, st.callee, st.op)
+				match := false
+				for _, gt := range gts {
+					if strings.Join(gt, "\x00") == strings.Join(wt, "\x00") && !strings.Contains(strings.Join(wt, ""), "?") {
+						match = true
+					}
+				}
+				r.Check(match, rule, fmt.Sprintf("%s:%s:loaded-key=written-key:%s", h.Key(), fn.Name(), name), p.InstrPos(st.call),
+					"the record written is keyed as the record loaded: "+strings.Join(wt, " / "),
+					fmt.Sprintf("the unit loads %s by %v but writes it under %v: the check and the write concern different records", name, gts, wt))
+			}
+		}
+	}
+	return nLW
+}
